@@ -109,7 +109,7 @@ func (c *Compiler) validateUsesBelow(
 			continue
 		}
 
-		ug, ok := scope.LookupGrouping(gname.Local)
+		ug, ok := u.LookupGrouping(gname.Local)
 		if !ok {
 			return fmt.Errorf(
 				"Unknown grouping (grouping %s) referenced from grouping %s",
